@@ -23,12 +23,13 @@ import (
 
 // one request of a round
 type request struct {
-	Kind   string // "dotx" | "select" | "play" | "balance"
-	Tx     *pb.Transaction
-	Label  string
-	Addr   string
-	Amount int64
-	Block  int
+	Kind    string // "dotx" | "select" | "play" | "balance"
+	ViaWalk bool   // play request carried out by State.Walk
+	Tx      *pb.Transaction
+	Label   string
+	Addr    string
+	Amount  int64
+	Block   int
 	// result
 	Call, Ret int64
 	Admitted  bool
@@ -109,8 +110,8 @@ func oneRound(rng *rand.Rand, pattern string, idx int) (rep roundReport) {
 	}
 	base := len(t.Blocks) - 1
 	playBlock := -1
-	if pattern == "play" {
-		// the block that will be played concurrently: generated on base, shares material with the requests
+	if pattern == "play" || pattern == "walk" {
+		// the block that will be played (or walked to, the engine's path) concurrently: generated on base, shares material with the requests
 		if _, err := t.AddBlock(rng, base, 2+rng.Intn(3), nil); err != nil {
 			problem("generator|fresh-replay-failed", "%v", err)
 			return
@@ -174,7 +175,7 @@ func oneRound(rng *rand.Rand, pattern string, idx int) (rep roundReport) {
 		}
 		fam("double-spend", 1)
 		reqs = append(reqs, &request{Kind: "balance", Addr: addr, Label: "balance"})
-	case "play":
+	case "play", "walk":
 		// submit (some of) the block's own transactions and conflicting ones while it is played
 		for _, x := range t.Blocks[playBlock].Block.Transactions {
 			if !x.Coinbase && rng.Intn(2) == 0 {
@@ -185,7 +186,7 @@ func oneRound(rng *rand.Rand, pattern string, idx int) (rep roundReport) {
 		}
 		fam("double-spend", 1)
 		fam("kv-ww", 1)
-		reqs = append(reqs, &request{Kind: "play", Block: playBlock, Label: "play"})
+		reqs = append(reqs, &request{Kind: "play", Block: playBlock, Label: pattern, ViaWalk: pattern == "walk"})
 		reqs = append(reqs, &request{Kind: "balance", Addr: sn.K(0).Address, Label: "balance"})
 	case "balance-cold":
 		// transfers towards one address while observers ask its balance on cold caches
@@ -262,7 +263,15 @@ func oneRound(rng *rand.Rand, pattern string, idx int) (rep roundReport) {
 					rq.Selected = append(rq.Selected, utxo.GenUtxoKey(in.FromAddr, in.RefTxid, in.RefOffset))
 				}
 			case "play":
-				err := s.N.State.Play(t.Blocks[rq.Block].ID)
+				var err error
+				if rq.ViaWalk {
+					// Walk rolls the pool back, applies the block and re-admits the pool in a goroutine of
+					// its own, which then runs next to the client submissions; Node.Walk returns when
+					// that recovery has finished
+					err = s.N.Walk(t.Blocks[rq.Block].ID, false)
+				} else {
+					err = s.N.State.Play(t.Blocks[rq.Block].ID)
+				}
 				rq.Admitted = err == nil
 				if err != nil {
 					rq.Err = err.Error()
@@ -352,7 +361,9 @@ func oneRound(rng *rand.Rand, pattern string, idx int) (rep roundReport) {
 	// transactions are evicted) - except under the recorded PlayAndRepost findings, whose
 	// structural precondition is evaluated on the pool the round left behind
 	for _, rq := range reqs {
-		if rq.Kind == "play" && !rq.Admitted {
+		if rq.Kind == "play" && !rq.Admitted && rq.ViaWalk {
+			problem("walk|valid-block-refused-under-concurrency", "Walk to a valid block on the state's tip failed (%s) while submissions were in flight", rq.Err)
+		} else if rq.Kind == "play" && !rq.Admitted {
 			if s.PlayHazard(rq.Block) {
 				rep.PlayHazards++
 			} else {
@@ -361,7 +372,7 @@ func oneRound(rng *rand.Rand, pattern string, idx int) (rep roundReport) {
 		}
 	}
 	// (c) a sequential order must explain the DoTx results (porcupine)
-	if pattern != "play" {
+	if pattern != "play" && pattern != "walk" {
 		rep.Porcupine = checkLinearizable(reqs, baseModel, height, problem)
 	}
 	// (d) quiescent-state auditors
